@@ -405,6 +405,8 @@ def cases(rng, tier):
         if j == 0:
             c["seed_v"] = 0
         yield c
+    for _ in range(3 if tier == "quick" else 30):   # nucleation in the final step of the run
+        yield c01._last_step(rng, tier)
     for _ in range(4 if tier == "quick" else 40):   # recorded subsets given as unsorted int lists
         yield c01._subset(rng, tier)
     n, nh, nt = (42, 8, 6) if tier == "quick" else (1300, 120, 50)
